@@ -397,42 +397,109 @@ def rule_keyblob_layout(ctx) -> None:
     chk.decide(out.kind == "return" and bytes(out.value) == want, "C13.wire", nn.qual, "nonce = CTR[0:4] | CTR[4:8] | CTR[0:4]^CTR[4:8] | 0 (32-bit block counter)", f"{out.value}", f"{want}", A.loc(OTFAD, nn.node))
     # IEE plain data: CRC over everything before it
     ip = ctx.own(IEE, "IeeKeyBlob", "plain_data")
-    t = norm(ip.node)
-    order = [t.find(x) for x in ("pack('<II', self.HEADER_TAG, self.KEYBLOB_VERSION)", "self.attributes.export()", "pack('<I', self.page_offset)", "align_block(self.key1, 32)", "align_block(self.key2, 32)", "pack('<III', self.start_addr, self.end_addr, 0)", "calculate(result)", "result += crc")]
-    chk.decide(all(o >= 0 for o in order) and order == sorted(order), "C13.wire", ip.qual, "tag, version, attributes, page offset, key1, key2, start, end, 0, then the CRC of all of that", f"{order}", "", A.loc(IEE, ip.node))
+    # evaluated on models: tag, version | attributes | page offset | key1, key2 (each padded to 32) | start, end, 0 | CRC of all of it
+    icls = ctx.cls(IEE, "IeeKeyBlob")
+    tag_v = ctx.prog.fold(icls.consts.get("HEADER_TAG"), icls.module, icls)
+    ver_v = ctx.prog.fold(icls.consts.get("KEYBLOB_VERSION"), icls.module, icls)
+    if not isinstance(tag_v, int) or not isinstance(ver_v, int):
+        raise AnalysisError("C13.wire: IeeKeyBlob.HEADER_TAG / KEYBLOB_VERSION do not fold")
+
+    def cv_iee(c: ast.Call, ev):
+        f = norm(c.func)
+        if f == "align_block" and 1 <= len(c.args) <= 2 and all(k.arg == "alignment" for k in c.keywords):
+            d_ = bytes(ev.ev(c.args[0]))
+            al = ev.ev(A.arg_of(c, 1, "alignment")) if A.arg_of(c, 1, "alignment") is not None else 4
+            return d_ + bytes(-len(d_) % al)
+        if isinstance(c.func, ast.Attribute) and c.func.attr == "export" and not c.args and not c.keywords:
+            o = ev.ev(c.func.value)
+            if isinstance(o, Obj) and "_export" in o.__dict__:
+                return o.__dict__["_export"]
+        return cv_common(c, ev)
+    probs = []
+    sym_ip = ctx.fold_sym(ip, {"Endianness.LITTLE.value": "little", "Endianness.BIG.value": "big"})
+    for k1, k2 in ((bytes(range(1, 33)), bytes(range(0x41, 0x61))), (bytes(range(1, 17)), bytes(range(0x41, 0x51)))):
+        me = Obj(HEADER_TAG=tag_v, KEYBLOB_VERSION=ver_v, attributes=Obj(_export=b"ATTR"), page_offset=0x11223344, key1=k1, key2=k2, start_addr=0x30001000, end_addr=0x30008FFF)
+        try:
+            out = ordereval.Evaluator({"self": me}, sym_ip, opaque_return=False, call_value=cv_iee).run(A.body_of(ip.node))
+        except ordereval.Unsupported as e2:
+            raise AnalysisError(f"C13.wire: IeeKeyBlob.plain_data left the fragment: {e2}")
+        body_b = _struct.pack("<II", tag_v, ver_v) + b"ATTR" + _struct.pack("<I", 0x11223344) + k1 + bytes(32 - len(k1)) + k2 + bytes(32 - len(k2)) + _struct.pack("<III", 0x30001000, 0x30008FFF, 0)
+        want_b = body_b + crc_model("CrcAlg.CRC32_MPEG", body_b).to_bytes(4, "little")
+        if not (out.kind == "return" and isinstance(out.value, (bytes, bytearray)) and bytes(out.value) == want_b):
+            probs.append(f"{len(k1)}-byte keys: {bytes(out.value).hex() if isinstance(out.value, (bytes, bytearray)) else out.kind} != {want_b.hex()}")
+    chk.decide(not probs, "C13.wire", ip.qual, "tag, version, attributes, page offset, key1, key2, start, end, 0, then the CRC-32/MPEG-2 (LE) of all of that (2 models)", "; ".join(probs[:1])[:400], "", A.loc(IEE, ip.node))
     for cn in ("BeeFacRegion", "BeeProtectRegionBlock", "BeeKIB"):
         wire.check_pair(ctx, "C13.wire", BEE, cn, "export", "parse")
 
 
 def rule_scramble(ctx) -> None:
+    """Otfad.encrypt_key_blobs evaluated on a model table of three blobs (helpers of the class are stepped into): which KEK every
+    blob is exported with, for every combination of (mask given / 0 / value / too wide) x (align given / 0 / value / too wide) x reversed."""
     chk = ctx.chk
     fn = ctx.own(OTFAD, "Otfad", "encrypt_key_blobs")
-    d = A.single_def(fn.node, "scramble_enabled")
-    if d is None:
-        # refactored: find the condition guarding the scramble set-up
-        ifs = [s for s in A.body_of(fn.node) if isinstance(s, ast.If) and "key_scramble" in norm(s.test)]
-        d = ifs[0].test if ifs else None
-    if d is None:
-        raise AnalysisError("C13.scramble: scramble switch not found")
-    cex = None
-    for mask in (None, 0, 5):
-        for al in (None, 0, 0x72):
-            try:
-                got = bool(ordereval.Evaluator({"key_scramble_mask": mask, "key_scramble_align": al}).ev(d))
-            except ordereval.Unsupported as e:
-                raise AnalysisError(f"C13.scramble: switch left the fragment: {e}")
-            want = mask is not None and al is not None
-            if got != want and cex is None:
-                cex = (mask, al, got)
+    ocls = ctx.cls(OTFAD, "Otfad")
+    KEK = bytes(range(0x10, 0x20))
+
+    def leaves(c: ast.Call, ev):
+        f = norm(c.func)
+        if isinstance(c.func, ast.Attribute) and c.func.attr == "export" and len(c.args) >= 1:
+            o = ev.ev(c.func.value)
+            if isinstance(o, Obj) and "_blob" in o.__dict__:
+                sw = A.arg_of(c, 1, "byte_swap_cnt")
+                return b"[" + bytes([o.__dict__["_blob"]]) + bytes(ev.ev(c.args[0])) + bytes([ev.ev(sw) if sw is not None else 0]) + b"]"
+        if f == "reverse_bits" and len(c.args) == 2:
+            x, w = ev.ev(c.args[0]), ev.ev(c.args[1])
+            return sum(((x >> i) & 1) << (w - 1 - i) for i in range(w))
+        if f == "align_block" and len(c.args) == 2 and not c.keywords:
+            d_ = bytes(ev.ev(c.args[0]))
+            return d_ + bytes(-len(d_) % ev.ev(c.args[1]))
+        if f == "bytes.fromhex" and len(c.args) == 1:
+            return bytes.fromhex(ev.ev(c.args[0]))
+        return ordereval.NOT_MODELLED
+    calls = ctx.model_calls(leaves, {"Endianness.LITTLE.value": "little", "Endianness.BIG.value": "big"}, classes={"Otfad": ocls})
+    sym = ctx.fold_sym(fn, {"Endianness.LITTLE.value": "little", "Endianness.BIG.value": "big"})
+    by_rule: Dict[str, List[str]] = {"switch": [], "use": [], "kek": [], "ranges": []}
+    n = 0
+    for mask in (None, 0, 0x8000_0001, 0xA1B2C3D4, 1 << 32):
+        for al in (None, 0, 0x1E, 0x72, 1 << 8):
+            for rev in (False, True):
+                for kek_in in (KEK, KEK.hex()):
+                    me = Obj(_cls=ocls, reversed_scramble_key=rev, _key_blobs=tuple(Obj(_blob=i) for i in range(3)))
+                    env = {"self": me, "kek": kek_in, "key_scramble_mask": mask, "key_scramble_align": al, "byte_swap_cnt": 5}
+                    try:
+                        out = ordereval.Evaluator(env, sym, opaque_return=False, call_value=calls).run(A.body_of(fn.node))
+                    except ordereval.Unsupported as ex:
+                        raise AnalysisError(f"C13.scramble: encrypt_key_blobs left the fragment: {ex}")
+                    n += 1
+                    on = mask is not None and al is not None
+                    label = f"mask={mask!r} align={al!r} reversed={rev}"
+                    if on and (mask >= 1 << 32 or al >= 1 << 8):
+                        if out.kind != "raise":
+                            by_rule["ranges"].append(f"{label}: accepted")
+                        continue
+                    if out.kind != "return" or not isinstance(out.value, (bytes, bytearray)):
+                        by_rule["switch"].append(f"{label}: {out.kind} {out.value!r}")
+                        continue
+                    blobs = []
+                    for i in range(3):
+                        k = bytearray(KEK)
+                        if on:
+                            m_ = sum(((mask >> b_) & 1) << (31 - b_) for b_ in range(32)) if rev else mask
+                            w_ = (al >> (2 * i)) & 3
+                            for j in range(4):
+                                k[4 * w_ + j] ^= m_.to_bytes(4, "little")[j]
+                        blobs.append(b"[" + bytes([i]) + bytes(k) + b"\x05]")
+                    want_b = b"".join(blobs)
+                    want_b += bytes(-len(want_b) % 256)
+                    if bytes(out.value) != want_b:
+                        plain = b"".join(b"[" + bytes([i]) + KEK + b"\x05]" for i in range(3))
+                        plain += bytes(-len(plain) % 256)
+                        which = "switch" if (bytes(out.value) == plain) != (not on) else ("use" if not on else "kek")
+                        by_rule[which].append(f"{label}: blob KEKs {bytes(out.value)[:60].hex()} expected {want_b[:60].hex()}")
     chk.exhaustive_rules.add("C13.scramble")
-    chk.decide(cex is None, "C13.scramble", fn.qual + " switch", "scrambling is on exactly when both mask and align are given (0 is a legal value)", f"mask={cex[0]!r} align={cex[1]!r}: enabled={cex[2]}" if cex else "", "is not None for both", A.loc(OTFAD, fn.node))
-    t = norm(fn.node)
-    loop_cond = [norm(s.test) for s in ast.walk(fn.node) if isinstance(s, ast.If) and any(isinstance(a, ast.For) for a in A.ancestors(s))]
-    chk.decide(loop_cond[:1] == ["scramble_enabled"] and "scrambled if scramble_enabled else kek" in t, "C13.scramble", fn.qual + " use", "the per-blob KEK follows the same switch", f"{loop_cond}", "", A.loc(OTFAD, fn.node))
-    ok = "long_ix = key_scramble_align >> i * 2 & 3" in t and "scrambled[long_ix * 4 + j] ^= key_scramble_mask_bytes[j]" in t and "for j in range(4):" in t and "scrambled = bytearray(kek)" in t
-    chk.decide(ok, "C13.scramble", fn.qual + " kek", "blob i XORs the mask into KEK word (align >> 2i) & 3", "", "", A.loc(OTFAD, fn.node))
-    ok = "key_scramble_mask.to_bytes(4, byteorder=Endianness.LITTLE.value)" in t and "if key_scramble_mask >= 1 << 32:" in t and "if key_scramble_align >= 1 << 8:" in t
-    chk.decide(ok, "C13.scramble", fn.qual + " ranges", "mask is 32 bit little-endian, align 8 bit", "", "", A.loc(OTFAD, fn.node))
+    for key, text in (("switch", "scrambling is on exactly when both mask and align are given (0 is a legal value)"), ("use", "without scrambling every blob is wrapped with the plain KEK"),
+                      ("kek", "blob i XORs the (optionally bit-reversed) little-endian mask into KEK word (align >> 2i) & 3"), ("ranges", "a mask wider than 32 bit or an align wider than 8 bit is refused")):
+        chk.decide(not by_rule[key], "C13.scramble", fn.qual + " " + key, f"{text} ({n} models)", "; ".join(by_rule[key][:2])[:500], "", A.loc(OTFAD, fn.node))
 
 
 def rule_dispatch_addresses(ctx) -> None:
